@@ -753,6 +753,15 @@ func c17Table(c *mon.Ctx) {
 			if past != cap7 {
 				return fmt.Sprintf("past=%v cap=%v", past, cap7)
 			}
+			// the cap is a cap however far away the key's own limit lies: timestamps are unsigned 64-bit milliseconds
+			for _, vu := range []uint64{1 << 62, 1<<63 - 1, 1 << 63, 1<<64 - 1} {
+				if capFar := !impl.SignatureValidityCheck(spec.Timestamp(now+8*24*3600*1000), spec.Timestamp(vu)); capFar != cap7 {
+					return fmt.Sprintf("cap=%v, with valid_until_ts=%d cap=%v", cap7, vu, capFar)
+				}
+				if !impl.SignatureValidityCheck(spec.Timestamp(now+3600*1000), spec.Timestamp(vu)) {
+					return fmt.Sprintf("rejects now+1h under valid_until_ts=%d", vu)
+				}
+			}
 			return past
 		}), t.StrictValidity)
 		cell(t.Version, "integer-power-levels", probe(func() any {
